@@ -107,12 +107,16 @@ def run(pids, only=None, verbose=True):
             try:
                 if not apply_edits(d, m["edits"]):
                     results.append({"property": pid, "mutant": m["name"], "status": "skipped", "why": "edit no longer applies"})
+                    if verbose:
+                        print("%-4s %-40s %-12s %s" % (pid, m["name"], "skipped", "edit no longer applies"))
                     continue
                 try:
                     fs = run_rules(pid, d, m.get("config", "lib"))
                 except RuntimeError as e:
                     results.append({"property": pid, "mutant": m["name"], "status": "skipped",
                                     "why": "mutant does not compile: " + str(e)[-300:]})
+                    if verbose:
+                        print("%-4s %-40s %-12s %s" % (pid, m["name"], "skipped", "does not compile: " + str(e)[-160:].replace("\n", " ")))
                     continue
                 exp = m.get("expect")
                 hit = [f for f in fs if (not exp or f.inst.startswith(exp)) and f.kind != "internal"]
